@@ -46,10 +46,19 @@ class Obj(object):
         return "Obj(%r)" % (vars(self),)
 
 
+class Label(str):
+    """a value whose type DERIVES from a primitive type (a str carrying attributes): not a bare primitive. Exists on the
+    implementation side only (impl-only scenarios)."""
+
+
 def val_str(v):
     """canonical text of a blackboard value (same as Codec.valStr on the model side)"""
     if v is None:
         return "n"
+    if isinstance(v, Label):
+        a = vars(v)
+        return "l:" + str.__str__(v) + ("{" + ",".join("%s=%s" % (k, val_str(x)) for k, x in sorted(a.items())) + "}"
+                                        if a else "")
     if isinstance(v, bool):
         return "b:1" if v else "b:0"
     if isinstance(v, int):
@@ -89,6 +98,17 @@ def _val_parse(s):
         while j < len(s) and (s[j].isalnum() or s[j] in "_/."):
             j += 1
         return s[2:j], s[j:]
+    if s.startswith("l:"):
+        j = 2
+        while j < len(s) and s[j].isalnum():
+            j += 1
+        v = Label(s[2:j])
+        rest = s[j:]
+        if rest.startswith("{"):
+            o, rest = _val_parse("o" + rest)
+            for k, x in vars(o).items():
+                setattr(v, k, x)
+        return v, rest
     if s.startswith("u["):
         items = []
         rest = s[2:]
